@@ -14,6 +14,11 @@ Streams (implementation = harness/src/bin/loud.rs on the crate built from the tr
             item lands (bank without outp / without size, filled bank, default bank after a #bankdef, very end of a sized
             bank, past the end via #addr/#align, unaligned, zero-sized bank) x labels before/after x what follows; a share of
             it also goes through the driver and the real binary.
+            directed family `magnitude` (the full product on every run): ~60 templates with a numeric hole (shift amounts and
+            operands, #res/#align/#addr, slice bounds, `N sizes, #dN and uN/sN/iN widths, every #bankdef field, incbin ranges,
+            arithmetic) x machine-word extremes and neighbours (2^31-1 .. 2^64+1, 2^64-1-k for k < 17, negatives) x
+            decimal/hex spelling; numbers on the command line (--iters, group/base/addr_unit, defines); a share also goes
+            through the driver and the real binary.  Every harness and binary run is under `ulimit -v` 4 GiB.
             G-mutate: 1..8-edit token-level mutants of every tests/**/*.asm entry and of generated programs
             (generators of c13_gen, c06, c05 + a cascading-size family) x budgets {1,2,3,10} x both debug switches
             x --debug-iters x defines (declared constants, labels, undeclared names): asm::assemble on a mock file server
@@ -33,9 +38,10 @@ from concurrent.futures import ThreadPoolExecutor
 import vlib
 import c03_gen as g
 
-RULE = ("library: directed zero-size family (18 items x 20 bank situations x 4 label layouts x 3 continuations, all of them on every run); "
+RULE = ("library: directed magnitude family (~60 numeric-hole templates x 62 machine-word extremes x spellings; left shifts by >= 2^31 or < 0 must fail); "
+        "directed zero-size family (18 items x 20 bank situations x 4 label layouts x 3 continuations, all of them on every run); "
         "every tests/**/*.asm entry unmutated + token-level mutants (1..8 edits out of delete/duplicate/swap/replace token, spliced "
-        "line of another file, non-ASCII character as own token / inside an identifier or number / inside a comment or string, unbalanced "
+        "line of another file, non-ASCII character as own token / inside an identifier or number / inside a comment or string, a number replaced by a machine-word extreme, unbalanced "
         "bracket, deleted/duplicated line) of the corpus and of generated programs, each with a random budget in {1,2,3,10}, both debug "
         "switches, --debug-iters (5%), 0..3 defines; non-trivial = distinct (input bytes, options) with at least one edit or a non-default "
         "option.  driver: 1..3 output groups over every format arm of driver.rs, print/named/derived outputs; non-trivial = distinct "
@@ -92,7 +98,8 @@ class Limiter:
 
 def loud_cmd(exe):
     """answers on fd 3, what the driver prints with println! goes to /dev/null"""
-    return ["sh", "-c", 'VH_ANS_FD3=1 exec "$0" 3>&1 1>/dev/null', exe]
+    # under a memory limit: a runaway allocation (2 EiB shift result ...) aborts the process instead of thrashing the machine
+    return ["sh", "-c", 'ulimit -v %d; VH_ANS_FD3=1 exec "$0" 3>&1 1>/dev/null' % g.MEM_LIMIT_KB, exe]
 
 
 def run_isolating(cmd, lines):
@@ -173,6 +180,12 @@ def build_library_cases(chk, bases):
         o["defines"] = []
         o["debug_iters"] = False
         cases.append({"base": label, "files": files, "entry": entry, "edits": [], "opts": o, "inline_all": True, "family": "zero"})
+    mr = rng.fork("magnitude")
+    for (label, files, entry, must_fail) in g.magnitude_family():
+        o = options(mr, "")
+        o["defines"] = []
+        o["debug_iters"] = False
+        cases.append({"base": label, "files": files, "entry": entry, "edits": [], "opts": o, "inline_all": True, "family": "magnitude", "must_fail": must_fail})
     gr = rng.fork("generated")
     for i in range(ngen):
         label, files, entry = g.generated_base(gr)
@@ -221,6 +234,10 @@ def stream_library(chk, lim, bins, bases, known):
         for k in c["edits"]:
             dist["edit_" + k] = dist.get("edit_" + k, 0) + 1
         dist["mutants" if c["edits"] else "unmutated"] += 1
+        if c.get("family") == "magnitude":
+            dist["magnitude_family"] = dist.get("magnitude_family", 0) + 1
+            if d.get("status") == "ok":
+                dist["magnitude_family_ok"] = dist.get("magnitude_family_ok", 0) + 1
         if c.get("family") == "zero":
             dist["zero_size_family"] = dist.get("zero_size_family", 0) + 1
             if d.get("status") == "ok":
@@ -233,6 +250,8 @@ def stream_library(chk, lim, bins, bases, known):
         rep = dict(small_replay(c), kind="library", stream="library", options=c["opts"], impl=d["raw"][:300], impl_release=r["raw"][:300])
         for prof, a in (("debug", d), ("release", r)):
             bad = g.verdict_library(a)
+            if not bad and c.get("must_fail") and a.get("status") == "ok":
+                bad = "silent success: a value that cannot be represented was accepted"
             if bad:
                 dist["abnormal"] += 1
                 if a["head"] in ("CRASH", "TIMEOUT") and g.c19_class(c["files"]):
@@ -287,7 +306,23 @@ def build_driver_cases(chk, bases, lib_cases, lib_out, formats):
                 fm["extra.asm"] = rng.choice([b"extra_label:\n#d8 0xee\n", b"#d8 0xee ; \xc3\xa9\n", b"", b"#assert 1 == 2\n", b"extra_label = 1\n"])
             cmd.inputs = [c["entry"], second]
             c = dict(c, files=fm, inline_all=c.get("inline_all"), mutated=c["entry"])
-        cases.append(dict(c, cmd=cmd, faults=[], stream="driver"))
+        # a define may replace the very constant that makes the program fail
+        cases.append(dict(c, cmd=cmd, faults=[], stream="driver", must_fail=bool(c.get("must_fail")) and not cmd.defines and not cmd.help and not cmd.version))
+    for k, (name, tail, prog, must_fail) in enumerate(g.magnitude_cli()):
+        cmd = g.Cmd()
+        cmd.groups[0]["print"] = "-p" in tail
+        cmd.quiet = True
+        cmd.argv = (lambda t: lambda: ["customasm", "main.asm", "-q"] + t)(tail)
+        cases.append({"base": "gen:magnitude_cli/%s/%s" % (name, tail[-2] if tail[-1] == "-p" else tail[-1]), "files": {"main.asm": prog.encode("utf-8")},
+                      "entry": "main.asm", "edits": [], "inline_all": True, "cmd": cmd, "faults": [], "stream": "driver", "magnitude": True, "must_fail": must_fail})
+    mr = chk.rng.fork("driver-magnitude")
+    mag = [i for i, c in enumerate(lib_cases) if c.get("family") == "magnitude"]
+    for i in mr.shuffle(mag)[:(500 if quick else len(mag))]:
+        c = lib_cases[i]
+        cmd = g.Cmd()
+        cmd.quiet = True
+        cmd.groups[0]["out"] = "out.bin"
+        cases.append(dict(c, cmd=cmd, faults=[], stream="driver", magnitude=True))
     zr = chk.rng.fork("driver-zero")
     zero = [i for i, c in enumerate(lib_cases) if c.get("family") == "zero"]
     for i in zr.shuffle(zero)[:(1200 if quick else len(zero))]:
@@ -342,6 +377,8 @@ def stream_driver(chk, lim, bins, cases, known):
             bad = g.verdict_driver(a, c["cmd"], c["faults"])
             if not bad and c["faults"] and c["faults"][0][0] == "W" and a["status"] == "OK" and not (c["cmd"].help or c["cmd"].version):
                 bad = "requested output %r is unwritable, yet drive returned Ok" % c["faults"][0][1]
+            if not bad and c.get("must_fail") and a.get("status") == "OK":
+                bad = "silent success: a number that cannot be honoured was accepted"
             if bad:
                 ds["abnormal"] += 1
                 if a["head"] in ("CRASH", "TIMEOUT") and g.c19_class(c["files"]):
@@ -500,6 +537,8 @@ def stream_real(chk, lim, real, drv_cases, drv_out, corpus_cases, known):
     zero = [i for i, c in enumerate(drv_cases) if c.get("zero")]
     for i in rng.shuffle(zero)[:(400 if quick else 3000)]:
         jobs.append((drv_cases[i], drv_cases[i]["cmd"], None, [], "zero", rng.choice(["debug", "release"])))
+    for k, i in enumerate(i for i, c in enumerate(drv_cases) if c.get("magnitude")):
+        jobs.append((drv_cases[i], drv_cases[i]["cmd"], None, [], "magnitude", ("debug", "release")[k % 2]))
     okf = [i for i, c in enumerate(drv_cases) if c["stream"] == "fault" and not c["faults"] and on_disk(c) and drv_out[i].get("status") == "OK"]
     for i in rng.shuffle(okf)[:n_fault_bases]:
         for (what, prep, cmd2, unw) in real_faults(rng, drv_cases[i], root_is_root):
@@ -512,12 +551,14 @@ def stream_real(chk, lim, real, drv_cases, drv_out, corpus_cases, known):
                           stdout_to=io.get("stdout"), stderr_to=io.get("stderr"))
     with ThreadPoolExecutor(vlib.NCPU) as ex:
         results = list(ex.map(work, range(len(jobs))))
-    dist = {"exit0": 0, "exit1": 0, "abnormal": 0, "corpus": 0, "plain": 0, "fault": 0, "stdio": 0, "argv": 0, "zero": 0, "fault_made_it_fail": 0, "c19_class": 0}
+    dist = {"exit0": 0, "exit1": 0, "abnormal": 0, "corpus": 0, "plain": 0, "fault": 0, "stdio": 0, "argv": 0, "zero": 0, "magnitude": 0, "fault_made_it_fail": 0, "c19_class": 0}
     for k, (job, res) in enumerate(zip(jobs, results)):
         c, cmd, prep, unw, what, prof = job[:6]
         io = job[6] if len(job) > 6 else {}
         dist[what.split(":")[0]] += 1
         bad = g.verdict_real(res, cmd, unwritable=unw, stdout_lost=bool(io.get("stdout")), stderr_lost=bool(io.get("stderr")))
+        if not bad and c.get("must_fail") and what == "magnitude" and res["rc"] == 0:
+            bad = "silent success: a value that cannot be represented / honoured was accepted with exit status 0"
         if not bad and io.get("must_fail") and res["rc"] == 0:
             bad = "the requested printout cannot be written (%s), yet exit status 0" % io.get("stdout")
         if not bad and unw and res["rc"] == 0:
